@@ -528,3 +528,7 @@ CHECKS = [
           rule="Hypothesis: a public name, 0-3 arguments from a pool of 29 (numbers, strings, templates, None, dictionaries, lists, pairs, callables, elements, foreign objects) and up to 3 method calls on the result; "
                "in a sandbox directory under a step budget. Non-trivial = the first call returned an object."),
 ]
+
+
+from .. import covfuzz  # noqa
+CHECKS.append(covfuzz.check(CHECKS, "harness.props.c20", "wrong_arguments", quick=3000, thorough=60000))
